@@ -63,6 +63,7 @@ package logicalplan
 // to a temporary copy - otherwise a replacement would be lost while in-place edits of the old node
 // stay (merge-selects: broader matchers without the filter).
 //@ func traverse
+//@   assigns nothing
 //@   requires expr != nil && !isnil(transform)
 //@   panics may
 //@   at logicalplan.traverse line "Args" assert[C09] call-argument-rewrites-land-in-the-plan: within($expr, node.Args)
@@ -71,6 +72,7 @@ package logicalplan
 //@   at logicalplan.traverse line "&node.RHS" assert[C09] rhs-rewrites-land-in-the-plan: within($expr, node)
 //@   loop 0 invariant node != nil && !isnil(transform)
 //@ func traverseBottomUp
+//@   assigns nothing
 //@   requires current != nil && !isnil(transform)
 //@   panics may
 //@   at logicalplan.traverseBottomUp line "Args" assert[C09,C10] call-argument-rewrites-land-in-the-plan: within($current, node.Args)
@@ -101,6 +103,7 @@ package logicalplan
 //@   loop 0 invariant added-so-far: forall i in len(matchers)..len(result) :: 0 <= src[i] && src[i] <= rangeindex && result[i] == other[src[i]] && other[src[i]].Name != "__name__"
 //@   loop 0 invariant applied-so-far: forall j in 0..rangeindex+1 :: other[j].Name == "__name__" || inM(matchers, other[j]) || inM(result, other[j])
 //@ func propagateMatchers
+//@   assigns github.com/prometheus/prometheus/promql/parser.VectorSelector.LabelMatchers
 //@   requires binOp != nil
 //@   at logicalplan.addMissingMatchers #1 assert[C09] left-operand-gains-from-the-right: sameslice($matchers, lhSelector.LabelMatchers) && sameslice($matchers, lhMatchers) &&
 //@       sameslice($other, rhSelector.LabelMatchers) && sameslice($other, rhMatchers)
@@ -130,6 +133,7 @@ package logicalplan
 //@       cast(*expr, *parser.AggregateExpr).Op == parser.GROUP || cast(*expr, *parser.AggregateExpr).Op == parser.COUNT ||
 //@       cast(*expr, *parser.AggregateExpr).Op == parser.TOPK || cast(*expr, *parser.AggregateExpr).Op == parser.BOTTOMK
 //@ func (DistributedExecutionOptimizer).makeSubQueries
+//@   assigns nothing
 //@   requires current != nil && *current != nil && preexisting(current)
 //@   ensures[C10] one-sub-query-per-engine: len(result.Expressions) == len(engines) && (forall i in 0..len(engines) ::
 //@       istype(result.Expressions[i], *logicalplan.RemoteExecution) && cast(result.Expressions[i], *logicalplan.RemoteExecution).Engine == engines[i] &&
